@@ -48,8 +48,20 @@ class Roles:
         self.cfg_idx_var = self.cfg_var = None
         self.zip_with: Dict[str, Term] = {}  # loop target -> the sequence it walks in step with self.configs (zip)
         self.passes: List[PassLoop] = []
+        # a traversal of self.configs that yields nothing (a table computed per config ahead of the epoch loop) is not the
+        # config loop when another traversal does yield
+        def _cfg_trav(n_, nd_):
+            t_ = fa.sym.term(nd_.owner.iter, n_)
+            return contains(t_, ("self", "configs")) and not (t_[0] == "attr" and t_[2] == "sampler")
+
+        def _yields(loop_):
+            return any(isinstance(x_, (ast.Yield, ast.YieldFrom)) for b_ in loop_.body for x_ in ast.walk(b_))
+        travs = [(n_, nd_) for n_, nd_ in cfg.nodes.items() if nd_.kind == "iter" and _cfg_trav(n_, nd_)]
+        silent = {n_ for n_, nd_ in travs if not _yields(nd_.owner)}
+        if len(silent) == len(travs):
+            silent = set()
         for n, nd in cfg.nodes.items():
-            if nd.kind != "iter":
+            if nd.kind != "iter" or n in silent:
                 continue
             loop = nd.owner
             it = fa.sym.term(loop.iter, n)
@@ -92,6 +104,18 @@ class Roles:
                     self.cfg_var = tg.id
             elif it[0] == "attr" and it[2] == "sampler" and isinstance(loop.target, ast.Name):
                 self.passes.append(PassLoop(n, nxt, loop, it[1], loop.target.id))
+            elif it[0] == "call" and it[1] == ("global", "enumerate") and len(it[2]) == 1 and it[2][0][0] == "attr" and \
+                    it[2][0][2] == "sampler" and isinstance(loop.target, ast.Tuple) and len(loop.target.elts) == 2 and \
+                    all(isinstance(e, ast.Name) for e in loop.target.elts):
+                # for k, i in enumerate(config.sampler): a pass with a running position
+                self.passes.append(PassLoop(n, nxt, loop, it[2][0][1], loop.target.elts[1].id))
+        # the main sampler consumed in chunks: 'it = iter(self.main_sampler)' + islice per update (no per-index loop)
+        self.chunk_source_node: Optional[int] = None
+        if self.main_iter is None:
+            srcs = [n_ for n_, c_ in fa.calls() if isinstance(c_.func, ast.Name) and c_.func.id == "iter" and len(c_.args) == 1
+                    and not c_.keywords and fa.sym.term(c_.args[0], n_) == ("self", "main_sampler")]
+            if len(srcs) == 1:
+                self.chunk_source_node = srcs[0]
         # yields
         self.main_yields: List[int] = []
         self.other_yields: List[int] = []
